@@ -586,7 +586,10 @@ fn obs_rescert(rc: &ResourceCert) -> Obs {
 
 fn obs_crl(c: &Crl, probes: &[Serial]) -> Obs {
     let mut o = Obs::new();
-    o.put("signature", || format!("{:?}", c.signature()));
+    // the identifier is observed through what it encodes to: whether its
+    // parameters were present when it was parsed is a spelling the encoder
+    // normalises by its documentation ("we will always include a parameters field")
+    o.put("signature", || hex(&cap(c.signature().x509_encode())));
     o.put("issuer", || r_name(c.issuer()));
     o.put("this_update", || r_time(c.this_update()));
     o.put("next_update", || r_time(c.next_update()));
@@ -2580,7 +2583,7 @@ fn space_reissue(ctx: &Ctx, d: &Dom) {
                             let m = f.content();
                             let built = ManifestContent::new(m.manifest_number(), m.this_update(), m.next_update(), m.file_hash_alg(), m.iter()).into_manifest(b, &signer, &Kid(0)).map_err(|e| e.to_string())?;
                             let Some((bytes, _)) = twin(&mut r, &built, |m| m.to_captured().as_slice().to_vec(), |x| Manifest::decode(x, true).map_err(|e| e.to_string()), |m| obs_manifest(m, &base_uri)) else { return Ok(()) };
-                            if c.modify == 0 && bytes != orig_bytes { r.fail("form_independent", "the manifest re-issued unchanged from its decoded foreign spelling differs from the object first built") }
+                            if c.modify == 0 && c.spelling & 8 == 0 && bytes != orig_bytes { r.fail("form_independent", "the manifest re-issued unchanged from its decoded foreign spelling differs from the object first built") }
                             bytes
                         } else {
                             let f = Roa::decode(foreign.as_slice(), true).map_err(|e| e.to_string())?;
@@ -2589,7 +2592,7 @@ fn space_reissue(ctx: &Ctx, d: &Dom) {
                             let built = rb.finalize(b, &signer, &Kid(0)).map_err(|e| e.to_string())?;
                             let Some((bytes, decoded)) = twin(&mut r, &built, |m| m.to_captured().as_slice().to_vec(), |x| Roa::decode(x, true).map_err(|e| e.to_string()), obs_roa) else { return Ok(()) };
                             if let Err(e) = decoded.process(&d.ta, true, |_| Ok(())) { r.fail("validate", format!("Roa::process: {e}")) }
-                            if c.modify == 0 && bytes != orig_bytes { r.fail("form_independent", "the ROA re-issued unchanged from its decoded foreign spelling differs from the object first built") }
+                            if c.modify == 0 && c.spelling & 8 == 0 && bytes != orig_bytes { r.fail("form_independent", "the ROA re-issued unchanged from its decoded foreign spelling differs from the object first built") }
                             bytes
                         };
                         let so2 = SoSpec { win: if c.modify == 2 { (0, 4) } else { so.win }, ..so.clone() };
@@ -2623,6 +2626,243 @@ fn space_reissue(ctx: &Ctx, d: &Dom) {
     sp.done(true, &format!("{} (object, spelling, modification) triples", cases.len()));
 }
 
+
+//============ Scale: numbers of blocks and of list entries ===================
+//
+// House rule: every count is swept through 0..=40, the neighbourhoods of
+// powers of two, and documented maxima. Part A pushes n ADJACENT unit blocks
+// (and the same with every third one missing) into every resource builder
+// entry point in ALL orders for n <= 6 and in structured orders beyond;
+// each result must equal the one from sorted insertion and its own decoded
+// twin. Part B sweeps the number of entries of manifests, CRLs, ASPA provider
+// sets and ROA prefix lists.
+
+#[derive(Clone, Copy, Debug, PartialEq, Eq)]
+enum Fam { As, V4, V6 }
+
+fn unit_ip(fam: Fam, i: usize) -> IpBlock {
+    if fam == Fam::V4 { let a = (0x0a00_0000u128 + i as u128) << 96; IpBlock::from((rpki::repository::resources::Addr::from_bits(a), rpki::repository::resources::Addr::from_bits(a | ((1u128 << 96) - 1)))) }
+    else { let a = (0x2001_0db8u128 << 96) + i as u128; IpBlock::from((rpki::repository::resources::Addr::from_bits(a), rpki::repository::resources::Addr::from_bits(a))) }
+}
+fn unit_as(i: usize) -> AsBlock { AsBlock::from(Asn::from_u32(64500 + i as u32)) }
+fn unit_roa(fam: Fam, i: usize) -> RoaIpAddress {
+    if fam == Fam::V4 { RoaIpAddress::new_addr(IpAddr::V4(Ipv4Addr::from(0x0a00_0000u32 + i as u32)), 32, None) }
+    else { RoaIpAddress::new_addr(IpAddr::V6(Ipv6Addr::from((0x2001_0db8u128 << 96) + i as u128)), 128, None) }
+}
+
+const RES_ENTRIES: [&str; 7] = ["FromIterator::collect", "BlocksBuilder::push", "BlocksBuilder::extend", "ResourcesBuilder::blocks(push)",
+    "TbsCert::*_resources_from_iter", "SignedObjectBuilder::build_*_resource_blocks", "RoaIpAddressesBuilder::to_resources"];
+
+/// The blocks `ids` (unit block numbers) pushed in this order through one
+/// entry point; returns the rendered chain and the rendering of its decoded twin.
+fn res_via(d: &Dom, fam: Fam, entry: usize, ids: &[usize]) -> Result<(String, String), String> {
+    use rpki::repository::resources::{AsBlocksBuilder, AsResourcesBuilder, IpBlocksBuilder, IpResourcesBuilder, AddressFamily};
+    if fam == Fam::As {
+        let blocks: Vec<AsBlock> = ids.iter().map(|&i| unit_as(i)).collect();
+        let res: AsResources = match entry {
+            0 => AsResources::blocks(blocks.into_iter().collect()),
+            1 => { let mut b = AsBlocksBuilder::new(); for x in blocks { b.push(x) } AsResources::blocks(b.finalize()) }
+            2 => { let mut b = AsBlocksBuilder::new(); b.extend(blocks.into_iter().map(Some).filter_map(|x| x)); AsResources::blocks(b.finalize()) }
+            3 => { let mut b = AsResourcesBuilder::new(); b.blocks(|b| for x in blocks { b.push(x) }); b.finalize() }
+            4 => { let mut t = CertSpec::base(CKind::Ca).build(d); t.as_resources_from_iter(blocks); t.as_resources().clone() }
+            5 => { let mut b = SoSpec::base().builder(d); b.build_as_resource_blocks(|b| for x in blocks { b.push(x) }); b.as_resources().clone() }
+            _ => return Err("not an entry point for AS resources".into()),
+        };
+        // missing resources have no encoding of their own (the extension is left out)
+        let twin_ = if res.is_present() { let enc = cap(res.encode_ref());
+            Mode::Der.decode(enc.as_slice(), AsResources::take_from).map_err(|e| format!("decoding the built AS resources: {e}"))? } else { res.clone() };
+        Ok((r_asres(&res), r_asres(&twin_)))
+    } else {
+        let v4 = fam == Fam::V4;
+        let blocks: Vec<IpBlock> = ids.iter().map(|&i| unit_ip(fam, i)).collect();
+        let res: IpResources = match entry {
+            0 => IpResources::blocks(blocks.into_iter().collect()),
+            1 => { let mut b = IpBlocksBuilder::new(); for x in blocks { b.push(x) } IpResources::blocks(b.finalize()) }
+            2 => { let mut b = IpBlocksBuilder::new(); b.extend(blocks.into_iter().map(Some).filter_map(|x| x)); IpResources::blocks(b.finalize()) }
+            3 => { let mut b = IpResourcesBuilder::new(); b.blocks(|b| for x in blocks { b.push(x) }); b.finalize() }
+            4 => { let mut t = CertSpec::base(CKind::Ca).build(d); if v4 { t.v4_resources_from_iter(blocks); t.v4_resources().clone() } else { t.v6_resources_from_iter(blocks); t.v6_resources().clone() } }
+            5 => { let mut b = SoSpec::base().builder(d); if v4 { b.build_v4_resource_blocks(|b| for x in blocks { b.push(x) }); b.v4_resources().clone() } else { b.build_v6_resource_blocks(|b| for x in blocks { b.push(x) }); b.v6_resources().clone() } }
+            _ => { let mut b = rpki::repository::roa::RoaIpAddressesBuilder::new(); for &i in ids { b.push(unit_roa(fam, i)) } b.to_resources() }
+        };
+        let twin_ = match res.to_blocks() {
+            Ok(bl) if res.is_present() => { let enc = cap(bl.encode_ref());
+                IpResources::blocks(Mode::Der.decode(enc.as_slice(), |c| IpBlocks::take_from_with_family(c, if v4 { AddressFamily::Ipv4 } else { AddressFamily::Ipv6 })).map_err(|e| format!("decoding the built IP blocks: {e}"))?) }
+            _ => res.clone(),
+        };
+        Ok((r_ipres(&res, v4), r_ipres(&twin_, v4)))
+    }
+}
+
+/// Structured insertion orders of 0..n.
+fn structured_orders(n: usize) -> Vec<(String, Vec<usize>)> {
+    let id: Vec<usize> = (0..n).collect();
+    let mut v: Vec<(String, Vec<usize>)> = vec![];
+    v.push(("reverse".into(), id.iter().rev().copied().collect()));
+    let ev: Vec<usize> = id.iter().copied().filter(|i| i % 2 == 0).collect(); let od: Vec<usize> = id.iter().copied().filter(|i| i % 2 == 1).collect();
+    v.push(("evens then odds".into(), ev.iter().chain(od.iter()).copied().collect()));
+    v.push(("odds then evens".into(), od.iter().chain(ev.iter()).copied().collect()));
+    v.push(("evens then odds descending".into(), ev.iter().chain(od.iter().rev()).copied().collect()));
+    v.push(("rotated by 1".into(), (0..n).map(|i| (i + 1) % n.max(1)).collect()));
+    v.push(("rotated by n/2".into(), (0..n).map(|i| (i + n / 2) % n.max(1)).collect()));
+    v.push(("neighbours swapped".into(), (0..n).map(|i| if i % 2 == 0 { (i + 1).min(n - 1) } else { i - 1 }).collect::<Vec<_>>()));
+    v.push(("outside in".into(), (0..n).map(|i| if i % 2 == 0 { i / 2 } else { n - 1 - i / 2 }).collect()));
+    v.push(("inside out".into(), (0..n).map(|i| if i % 2 == 0 { i / 2 } else { n - 1 - i / 2 }).rev().collect()));
+    v.push(("every third first".into(), (0..3).flat_map(|r| (0..n).filter(move |i| i % 3 == r)).collect()));
+    for k in [3usize, 5, 7] { if n > k && (1..=k).all(|g| g == 1 || !(n % g == 0 && k % g == 0)) { v.push((format!("stride {k}"), (0..n).map(|i| (i * k) % n).collect())) } }
+    // "neighbours swapped" can repeat the last index for odd n: make every order a permutation
+    for (_, o) in v.iter_mut() { let mut seen = vec![false; n]; o.retain(|&i| { let f = !seen[i]; seen[i] = true; f }); for i in 0..n { if !seen[i] { o.push(i) } } }
+    v
+}
+
+/// the count sweep: 0..=40, then k-1, k, k+1 around powers of two
+fn count_sweep(max_quick: usize, thorough: bool, extra: &[usize]) -> Vec<usize> {
+    let mut v: Vec<usize> = (0..=40).collect();
+    for k in [64usize, 128, 256, 1024, 4096, 16384, 65536] { if k <= max_quick || thorough { v.extend([k - 1, k, k + 1]) } }
+    if thorough { v.extend_from_slice(extra) }
+    v.sort(); v.dedup(); v
+}
+
+#[derive(Clone, Debug)]
+struct ScaleCase { part: u8, fam: Fam, entry: usize, n: usize, gaps: bool, order_name: String, order: Vec<usize> }
+
+fn space_scale(ctx: &Ctx, d: &Dom) {
+    let thorough = ctx.tier.is_thorough();
+    let sp = ctx.space("build.scale",
+        "A: n adjacent unit blocks (AS numbers, IPv4 /32, IPv6 /128; also with every third block missing) through 7 builder entry points (collect, BlocksBuilder push / extend, ResourcesBuilder, TbsCert *_from_iter, SignedObjectBuilder build_*_resource_blocks, ROA prefix list -> to_resources) in ALL n! orders for n <= 6 and 10-13 structured orders (reverse, evens/odds, rotations, swapped neighbours, outside-in, strides) for every n in 7..=40 and n in {63..65, 127..129, 255..257, 1023..1025, 4095..4097} (thorough: 16383..16385; the unsorted path is quadratic, 65536 stays out): the chain must equal the one from sorted insertion and its own DER-decoded twin; certificate level (into_cert / RoaBuilder::finalize, decode, re-encode, accessor agreement, validation, Roa::process): all orders for n <= 5 (quick) / 6 (thorough) and evens-then-odds for 7..=40. B: the number of entries of a manifest, a CRL, an ASPA provider set and a ROA prefix list swept through 0..=40 and the same power-of-two neighbourhoods up to 4097 (thorough: ASPA 16379, 16380 = MAX_COUNT and nothing above it; ROA 16383..16385; CRL and manifest 16383..16385 and 65535..65537), entries with gaps (every other number missing), contains() probed at the first / middle / last entry and before / between / after them; non-trivial = distinct inputs; outcome = part + size class");
+    let fams = [Fam::As, Fam::V4, Fam::V6];
+    let mut cases: Vec<ScaleCase> = vec![];
+    // ---- A1: resource level
+    for &fam in &fams { for entry in 0..7 { if fam == Fam::As && entry == 6 { continue }
+        for n in 0..=6usize { for p in permutations(n) { for gaps in [false, true] {
+            if gaps && (n < 3 || entry > 1) { continue }
+            cases.push(ScaleCase { part: 0, fam, entry, n, gaps, order_name: "permutation".into(), order: p.clone() });
+        }}}
+        let big: Vec<usize> = count_sweep(4096, thorough, &[]).into_iter().filter(|n| *n >= 7 && *n <= 16385).collect();
+        for n in big { for (name, o) in structured_orders(n) {
+            if n > 40 && (entry > 3 && entry != 6 || !(name == "evens then odds" || name == "reverse" || name == "stride 7" || name == "outside in")) { continue }
+            for gaps in [false, true] { if gaps && entry > 1 { continue }
+                cases.push(ScaleCase { part: 0, fam, entry, n, gaps, order_name: name.clone(), order: o.clone() });
+            }
+        }}
+    }}
+    // ---- A2: certificate level
+    for &fam in &fams {
+        for n in 1..=(if thorough { 6usize } else { 5 }) { for p in permutations(n) {
+            cases.push(ScaleCase { part: 1, fam, entry: 4, n, gaps: false, order_name: "permutation".into(), order: p.clone() });
+            if fam != Fam::As { cases.push(ScaleCase { part: 1, fam, entry: 6, n, gaps: false, order_name: "permutation".into(), order: p }) }
+        }}
+        for n in 7..=40usize { let o = structured_orders(n).into_iter().find(|x| x.0 == "evens then odds").unwrap().1;
+            cases.push(ScaleCase { part: 1, fam, entry: 4, n, gaps: false, order_name: "evens then odds".into(), order: o.clone() });
+            if fam != Fam::As { cases.push(ScaleCase { part: 1, fam, entry: 6, n, gaps: false, order_name: "evens then odds".into(), order: o }) }
+        }
+    }
+    // ---- B: list sizes (entry = object kind)
+    for (kind, extra) in [(0usize, vec![65535usize, 65536, 65537]), (1, vec![65535, 65536, 65537]), (2, vec![16379, 16380]), (3, vec![])] {
+        for n in count_sweep(4096, thorough, &extra) { if (kind == 2 || kind == 3) && n == 0 { continue }
+            if kind == 2 && n > 16380 { continue }     // more than MAX_COUNT providers is outside the profile (the decoder says so)
+            if kind == 3 && n > 16385 { continue }
+            cases.push(ScaleCase { part: 2, fam: Fam::V4, entry: kind, n, gaps: true, order_name: "ascending".into(), order: vec![] });
+        }
+    }
+    let list_names = ["manifest files", "CRL entries", "ASPA providers", "ROA prefixes"];
+    let so = SoSpec::base();
+    let base_uri = d.dirs[1].clone();
+    run_cases(ctx, &sp, "scale", &cases,
+        |c| match c.part {
+            0 | 1 => format!("{} {:?} n={}{} via {} order={}{}", if c.part == 0 { "blocks" } else { "certificate-level blocks" }, c.fam, c.n, if c.gaps { " (every third missing)" } else { "" },
+                RES_ENTRIES[c.entry], c.order_name, if c.n <= 12 { format!(" {:?}", c.order) } else { String::new() }),
+            _ => format!("{} n={}", list_names[c.entry], c.n),
+        },
+        |c| {
+            let mut r = CaseResult::default();
+            let class = if c.n <= 6 { "n<=6" } else if c.n <= 40 { "7..=40" } else { "power-of-two neighbourhood" };
+            r.label = format!("{} {class}", ["A blocks", "A certificates", "B lists"][c.part as usize]);
+            r.der_hash = fnv(format!("{:?}", (c.part, c.fam as u8, c.entry, c.n, c.gaps, &c.order_name, if c.n <= 6 { c.order.clone() } else { vec![] })).as_bytes());
+            let signer = so.signer(d);
+            let res = guard(|| -> Result<(), String> {
+                let ids = |order: &[usize]| -> Vec<usize> { order.iter().map(|&i| if c.gaps { i + i / 2 } else { i }).collect() };   // gaps: 0,1,3,4,6,7,...
+                match c.part {
+                    0 => {
+                        let sorted: Vec<usize> = (0..c.n).collect();
+                        let (got, twin_) = res_via(d, c.fam, c.entry, &ids(&c.order))?;
+                        let (want, _) = res_via(d, c.fam, c.entry, &ids(&sorted))?;
+                        if got != want { r.fail("order_independent", format!("this order: {} sorted insertion: {}", rpki_verif::trunc(&got, 300), rpki_verif::trunc(&want, 300))) }
+                        if got != twin_ { r.fail("accessors", format!("built: {} decoded twin: {}", rpki_verif::trunc(&got, 300), rpki_verif::trunc(&twin_, 300))) }
+                    }
+                    1 => {
+                        if c.entry == 4 {
+                            let mk = |order: &[usize]| { let mut t = CertSpec { v4: ResCh::Missing, v6: ResCh::Missing, asn: ResCh::Missing, ..CertSpec::base(CKind::Ca) }.build(d);
+                                match c.fam { Fam::As => t.as_resources_from_iter(order.iter().map(|&i| unit_as(i))), Fam::V4 => t.v4_resources_from_iter(order.iter().map(|&i| unit_ip(Fam::V4, i))), Fam::V6 => t.v6_resources_from_iter(order.iter().map(|&i| unit_ip(Fam::V6, i))) } t };
+                            let t = mk(&c.order); let sorted: Vec<usize> = (0..c.n).collect(); let reference = mk(&sorted);
+                            form_check(&mut r, &cap(reference.encode_ref()), &cap(t.encode_ref()), &obs_tbs(&reference), &obs_tbs(&t));
+                            let built = t.into_cert(&d.signer, &Kid(0)).map_err(|e| e.to_string())?;
+                            let Some((_, decoded)) = twin(&mut r, &built, |c| c.to_captured().as_slice().to_vec(), |b| Cert::decode(b).map_err(|e| e.to_string()), obs_cert) else { return Ok(()) };
+                            match (validate_cert(d, CKind::Ca, &decoded, d.instants[1]), validate_cert(d, CKind::Ca, &built, d.instants[1])) {
+                                (Ok(Some(a)), Ok(Some(b))) => if let Some(x) = diff(&obs_rescert(&b), &obs_rescert(&a)) { r.fail("accessors", format!("validated: {x}")) },
+                                (Err(e), _) | (_, Err(e)) => r.fail("validate", e), _ => {}
+                            }
+                        } else {
+                            let mk = |order: &[usize]| { let mut b = RoaBuilder::new(Asn::from_u32(65536)); for &i in order { if c.fam == Fam::V4 { b.push_v4(unit_roa(Fam::V4, i)) } else { b.push_v6(unit_roa(Fam::V6, i)) } } b.finalize(so.builder(d), &signer, &Kid(0)).map_err(|e| e.to_string()) };
+                            let built = mk(&c.order)?;
+                            let Some((bytes, decoded)) = twin(&mut r, &built, |m| m.to_captured().as_slice().to_vec(), |x| Roa::decode(x, true).map_err(|e| e.to_string()), obs_roa) else { return Ok(()) };
+                            // the EE certificate must not depend on the order of the prefixes
+                            let sorted: Vec<usize> = (0..c.n).collect(); let reference = mk(&sorted)?;
+                            if let Some(x) = diff_l(&obs_tbs(reference.cert()), &obs_tbs(built.cert()), "sorted", "this order") { r.fail("order_independent", format!("EE certificate: {x}")) }
+                            validate_signed(d, &mut r, &bytes, &so);
+                            if let Err(e) = decoded.process(&d.ta, true, |_| Ok(())) { r.fail("validate", format!("Roa::process: {e}")) }
+                        }
+                    }
+                    _ => {
+                        let n = c.n;
+                        match c.entry {
+                            0 => {
+                                let built = ManifestContent::new(d.serials[3].1, d.instants[1], d.instants[3], DigestAlgorithm::sha256(),
+                                    (0..n).map(|i| { let name = format!("f{:05}.roa", 2 * i + 1); let h = sha256(name.as_bytes()); FileAndHash::new(name.into_bytes(), h) }))
+                                    .into_manifest(so.builder(d), &signer, &Kid(0)).map_err(|e| e.to_string())?;
+                                let Some((bytes, decoded)) = twin(&mut r, &built, |m| m.to_captured().as_slice().to_vec(), |x| Manifest::decode(x, true).map_err(|e| e.to_string()), |m| obs_manifest(m, &base_uri)) else { return Ok(()) };
+                                if decoded.content().len() != n || decoded.content().iter().count() != n { r.fail("accessors", format!("{} / {} entries come back, {n} went in", decoded.content().len(), decoded.content().iter().count())) }
+                                validate_signed(d, &mut r, &bytes, &so);
+                            }
+                            1 => {
+                                let ser = |i: usize| Serial::from((2 * i + 1) as u64);
+                                let built = TbsCertList::new(RpkiSignatureAlgorithm::default(), d.issuer_name(1, 0), d.instants[1], d.instants[3],
+                                    (0..n).map(|i| CrlEntry::new(ser(i), d.instants[i % 5])).collect::<Vec<_>>(), d.signer.public(0).key_identifier(), d.serials[3].1).into_crl(&d.signer, &Kid(0)).map_err(|e| e.to_string())?;
+                                // first / middle / last entry, and the gaps before, between and after
+                                let mut probes = vec![Serial::from(0u64), Serial::from((2 * n + 1) as u64), Serial::from((2 * n + 2) as u64)];
+                                if n > 0 { probes.extend([ser(0), ser(n / 2), ser(n - 1), Serial::from((2 * (n / 2)) as u64), Serial::from((2 * (n - 1)) as u64)]) }
+                                let Some((_, decoded)) = twin(&mut r, &built, |m| m.to_captured().as_slice().to_vec(), |x| Crl::decode(x).map_err(|e| e.to_string()), |x| obs_crl(x, &probes)) else { return Ok(()) };
+                                if decoded.revoked_certs().iter().count() != n { r.fail("accessors", format!("{} entries come back, {n} went in", decoded.revoked_certs().iter().count())) }
+                                for (i, p) in probes.iter().enumerate() { let want = i >= 3 && i < 6; if decoded.contains(*p) != want || built.contains(*p) != want { r.fail("accessors", format!("contains({p}) is {} / {} but the serial was{} put on the list", built.contains(*p), decoded.contains(*p), if want { "" } else { " not" })) } }
+                                if let Err(e) = decoded.verify_signature(&d.signer.public(0)) { r.fail("validate", e.to_string()) }
+                            }
+                            2 => {
+                                let provs: Vec<Asn> = (0..n).map(|i| Asn::from_u32((2 * i + 1) as u32)).collect();
+                                let built = AspaBuilder::new(Asn::from_u32(0), provs).map_err(|e| e.to_string())?.finalize(so.builder(d), &signer, &Kid(0)).map_err(|e| e.to_string())?;
+                                let Some((bytes, decoded)) = twin(&mut r, &built, |m| m.to_captured().as_slice().to_vec(), |x| Aspa::decode(x, true).map_err(|e| e.to_string()), obs_aspa) else { return Ok(()) };
+                                if decoded.content().provider_as_set().len() != n || decoded.content().provider_as_set().iter().count() != n { r.fail("accessors", format!("{} providers come back, {n} went in", decoded.content().provider_as_set().len())) }
+                                validate_signed(d, &mut r, &bytes, &so);
+                                if let Err(e) = decoded.process(&d.ta, true, |_| Ok(())) { r.fail("validate", format!("Aspa::process: {e}")) }
+                            }
+                            _ => {
+                                let mut b = RoaBuilder::new(Asn::from_u32(65536));
+                                for i in 0..n { if i % 2 == 0 { b.push_v4(unit_roa(Fam::V4, 2 * i)) } else { b.push_v6(unit_roa(Fam::V6, 2 * i)) } }
+                                let built = b.finalize(so.builder(d), &signer, &Kid(0)).map_err(|e| e.to_string())?;
+                                let Some((bytes, decoded)) = twin(&mut r, &built, |m| m.to_captured().as_slice().to_vec(), |x| Roa::decode(x, true).map_err(|e| e.to_string()), obs_roa) else { return Ok(()) };
+                                if decoded.content().iter().count() != n { r.fail("accessors", format!("{} prefixes come back, {n} went in", decoded.content().iter().count())) }
+                                validate_signed(d, &mut r, &bytes, &so);
+                                if let Err(e) = decoded.process(&d.ta, true, |_| Ok(())) { r.fail("validate", format!("Roa::process: {e}")) }
+                            }
+                        }
+                    }
+                }
+                Ok(())
+            });
+            match res { Ok(Ok(())) => {}, Ok(Err(e)) => r.fail("build", e), Err(p) => r.fail("build", p) }
+            r
+        });
+    sp.done(true, &format!("{} cases", cases.len()));
+}
+
 fn main() {
     let ctx = Ctx::new("C05", "exploration");
     ctx.assume("aws-lc RSA/ECDSA and SHA-256 are correct; keys come from the fixed pool in /verif/keys");
@@ -2645,5 +2885,6 @@ fn main() {
     if want("setters") { space_setters(&ctx, &d) }
     if want("made") { space_made_inputs(&ctx, &d) }
     if want("reissue") { space_reissue(&ctx, &d) }
+    if want("scale") { space_scale(&ctx, &d) }
     ctx.finish();
 }
